@@ -53,6 +53,6 @@ theorem C07_fixed_div_zero :
 /-- `int a[7 % 4]` became a VLA -/
 theorem C07_fixed_mod_const : isConstExpr .wrapping noFp (elabE (.bin .mod (.lit .i32 7) (.lit .i32 4))) = .ok true := by decide
 /-- `static _Bool b = 2;` stored 2 -/
-theorem C07_fixed_bool_init : storeGvar noFp (descr .bool) (elabE (.lit .i32 2)) 2#64 = .ok 1#64 := by decide
+theorem C07_fixed_bool_init : storeGvar .wrapping noFp (descr .bool) (elabE (.lit .i32 2)) 2#64 = .ok 1#64 := by decide
 
 end ChibiVerif.Findings.C07
